@@ -1,7 +1,8 @@
 #!/bin/bash
-# thorough tier of every check, one after the other (background use: vp run -- ./scripts/thorough_all.sh)
+# thorough tier of every check (or of the checks named as arguments), one after the other
+# (background use: vp run -- ./scripts/thorough_all.sh [C28 C29 ...])
 ./check setup 2>&1 | tail -2
-for c in C21 C25 C15 C28 C29 C19 C20; do
+for c in ${@:-C21 C25 C15 C28 C29 C19 C20}; do
   echo "##### $c thorough"; /usr/bin/time -f "%e s" ./check $c --tier thorough 2>&1 | grep -E "^VIOLATION|^KNOWN-FINDING|HARNESS|^\[C| s$|^\[build\]" | cut -c1-220; echo "exit=${PIPESTATUS[0]}"
   python3 -c "
 import json; d=json.load(open('evidence/$c.json')); c=d['coverage']; print('   evaluations', c['evaluations'], 'distinct', c['distinct_nontrivial'], 'wall', d['wall_s'], 'violations', d['violations'])"
